@@ -122,4 +122,10 @@ CHECKS = {
                  'allocates the declared size, which only slows the search)'],
  'jobs': [{'pkg': 'c06', 'run': 'TestHostile', 'checks': {'quick': 12000, 'thorough': 800000}, 'shards': {'quick': 8, 'thorough': 16}},
           {'pkg': 'c06', 'run': 'TestMetadataCasing', 'checks': {'quick': 4000, 'thorough': 100000}, 'shards': {'quick': 2, 'thorough': 8}}]},
+    'C07': {'level': 'exploration',
+ 'assumptions': ['requests reach ServeHTTP directly (crafted method, version, header multimap, body bytes); the handler program drains the request and returns '
+                 'a Receive error as any realistic handler does',
+                 "not asserted: extra frames after the single message of a unary/server-stream request; client-sent frames carrying another protocol's "
+                 'terminator flag; envelope prefixes declaring >1 MiB more than present without a read limit'],
+ 'jobs': [{'pkg': 'c07', 'run': 'TestHostile', 'checks': {'quick': 16000, 'thorough': 800000}, 'shards': {'quick': 8, 'thorough': 16}}]},
 }
